@@ -1,17 +1,18 @@
 #!/bin/bash
 # usage: lib/seedrun.sh <patch.diff> <property> [extra ./check args...]
-# Applies the patch to a scratch worktree of /repo (never to /repo itself), runs the check against it via VF_REPO,
-# prints the tail of the output and removes the worktree.
+# Applies the patch to a scratch worktree of /repo (never to /repo itself), runs the check against it via VF_REPO
+# (own build and evidence directories, so several can run side by side and the committed evidence is untouched),
+# prints the verdict lines and removes the worktree.
 set -u
 patch=$1; prop=$2; shift 2
 wt=/tmp/mut_$$
 git -C /repo worktree add -q --detach $wt HEAD || exit 9
 if ! git -C $wt apply "$patch"; then echo "PATCH DOES NOT APPLY"; git -C /repo worktree remove --force $wt; exit 9; fi
 cd /verif
-VF_REPO=$wt ./check $prop "$@" > /tmp/seedrun_$$.out 2>&1
+VF_REPO=$wt VF_BUILD=${wt}_build VF_EVIDENCE=${wt}_build/evidence ./check $prop "$@" > /tmp/seedrun_$$.out 2>&1
 rc=$?
 grep -E "^(violated|VIOLATION|ERROR|OK|KNOWN)" /tmp/seedrun_$$.out | cut -c1-260 | head -12
 echo "exit=$rc"
 git -C /repo worktree remove --force $wt
-rm -f /tmp/seedrun_$$.out
+rm -rf /tmp/seedrun_$$.out ${wt}_build
 exit $rc
